@@ -41,6 +41,11 @@ def r25_1(ctx, rep):
         site = "%s:%s.%s" % (XML, CLS, name)
         for c in calls(fn):
             for a in c.args:
+                if isinstance(a, ast.Starred) and isinstance(a.value, ast.Attribute) and is_name(a.value.value, "self") and is_name(c.func, "E"):
+                    n += 1
+                    rep.ob(R, site, "children from " + norm(a.value)[:40], False,
+                           "the children of this element are `*%s`, not `self.xml[c] for c in <own child list>`: a list kept on the generator while "
+                           "walking also holds the elements of nested constructs, and lxml moves them out of their real parent" % norm(a.value)[:50])
                 if isinstance(a, ast.Starred) and isinstance(a.value, ast.ListComp):
                     lc = a.value
                     g = lc.generators[0]
